@@ -1689,6 +1689,7 @@ impl Parser {
                 | Operator::Sub
                 | Operator::Star
                 | Operator::Xor
+                | Operator::And
                 | Operator::Arrow
                 | Operator::Not
                 | Operator::ParenLeft
